@@ -236,6 +236,16 @@ def check_models(res, sc, genome, ctx, case):
                                             "sites": [canon.sites(genome[t["chr"]], i) for i in introns]}, case)
             if not values and fn == "transcript_models.gtf":
                 ctx.violation("C18:model-without-Canonical-attribute", {"transcript": tid}, case)
+            # reporting level only_canonical: "all splice sites must be canonical from the same strand" - every intron of
+            # a novel spliced model is canonical for the model's strand in the FASTA or annotated on that strand
+            if fn == "transcript_models.gtf" and tid not in ref and introns and rc_ == "only_canonical" and \
+                    t["strand"] in ("+", "-"):
+                bad = [i for i in introns if canon.intron_strand(genome[t["chr"]], i) != t["strand"] and
+                       t["strand"] not in ann.get((t["chr"], i), ())]
+                if bad:
+                    ctx.violation("C18:only_canonical-level-reports-a-model-with-a-non-canonical-intron",
+                                  {"transcript": tid, "strand": t["strand"], "introns": bad[:3],
+                                   "sites": [canon.sites(genome[t["chr"]], i) for i in bad[:3]]}, case)
             # strand of novel spliced models
             if fn == "transcript_models.gtf" and tid not in ref and introns:
                 fwd = rev = 0
